@@ -811,6 +811,19 @@ pub fn c13(run: &'static Run) -> (u64, u64) {
         scenarios.push(vec!["debug on".into(), set("Hash", 300.min(h.max)), "go".into(), set("Hash", h.min.max(1)), "go".into(), set("Hash", 8.min(h.max)), set("Hash", 8.min(h.max)), "go".into(), "debug off".into(), set("Hash", h.min), "go".into()]);
         scenarios.push(vec!["debug on".into(), set("Move Overhead", 100), set("Move Overhead", 0), set("Threads", 1), "go".into()]);
     }
+    // a long session: 300 option settings, each followed by a search, without a new game in between
+    {
+        let mut long: Vec<String> = vec![];
+        for k in 0..300usize {
+            long.push(match k % 3 {
+                0 => set("Move Overhead", k % 1001),
+                1 => set("Threads", 1),
+                _ => set("Move Overhead", 1000 - (k % 1001)),
+            });
+            long.push("go depth 1".into());
+        }
+        scenarios.push(long);
+    }
     // options combined
     if let (Some(h), Some(m)) = (opts.iter().find(|o| o.name == "Hash"), opts.iter().find(|o| o.name == "Move Overhead")) {
         scenarios.push(vec![set("Hash", h.min), set("Move Overhead", m.max), set("Threads", 1), "go".into(), set("Hash", 2), set("Move Overhead", m.min)]);
